@@ -1030,6 +1030,30 @@ theorem C12_leaked_lock_rejected :
     exitReleases ⟨t!"toolManager.registerTool", 1, .w, true⟩ = false ∧
     exitReleases ⟨t!"toolManager.registerTool", 1, .none, false⟩ = false := by decide
 
+/-- **A registration is whole or not at all.** Over the regenerated facts about the four register functions that keep
+    an order slice: each writes the slice and stores into the map, with no `return` between the two — so a refused or
+    degenerate registration (nil handler, nil descriptor, empty key) either does both or neither, which is what the
+    model's single step `Reg.register` and the invariant `C12_order_inv` rest on. -/
+theorem C12_registration_whole :
+    Mcp.Gen.registryStorePairs.map (fun p => p.fn) = expectedStorePairs ∧
+    ∀ p ∈ Mcp.Gen.registryStorePairs, storesBoth p = true := by
+  have h1 : Mcp.Gen.registryStorePairs.map (fun p => p.fn) = expectedStorePairs := by decide +kernel
+  have h2 : (Mcp.Gen.registryStorePairs.all fun p => storesBoth p) = true := by decide +kernel
+  exact ⟨h1, fun p hp => List.all_eq_true.1 h2 p hp⟩
+
+/-- The bad region: a `return` between the order append and the map store is rejected, and the half-step it allows breaks
+    the invariant for good — after "order only" on a fresh key and a proper registration of the same key the order slice
+    names the key twice (every list from then on shows it twice). -/
+theorem C12_half_registration_witness :
+    storesBoth ⟨t!"resourceManager.registerResource", 1, 1, 1, true⟩ = false ∧
+    ((({} : Reg).registerOrderOnly t!"r").register t!"r" 1).order = [t!"r", t!"r"] ∧
+    ¬ RegInv ((({} : Reg).registerOrderOnly t!"r").register t!"r" 1) := by
+  refine ⟨by decide, by decide, ?_⟩
+  intro h
+  have : ((({} : Reg).registerOrderOnly t!"r").register t!"r" 1).order.Nodup := h.2
+  revert this
+  decide
+
 /-! ## non-vacuity -/
 
 /-- register a, register b, re-register a (new version, same position), list, unregister a, call a, call b,
